@@ -111,7 +111,7 @@ impl WalRecovery {
         }
 
         // Read log files in sequence, skipping those before checkpoint
-        for log_file in log_files {
+        'files: for log_file in log_files {
             // Extract sequence number from filename
             let sequence = Self::sequence_from_path(&log_file).unwrap_or(0);
 
@@ -161,10 +161,11 @@ impl WalRecovery {
                     }
                     Ok(None) => break, // EOF
                     Err(e) => {
-                        // Log corruption - stop reading this file but continue
-                        // with remaining files (best-effort recovery)
+                        // Log corruption - replay stops here. Continuing with later
+                        // files would apply records whose predecessors were lost, so
+                        // the result would not be a prefix of what was written.
                         tracing::warn!("WAL corruption detected in {:?}: {}", log_file, e);
-                        break;
+                        break 'files;
                     }
                 }
             }
